@@ -10,6 +10,18 @@ import (
 var primTypes = []string{"double", "uint64_t", "int64_t", "float", "uint32_t", "int32_t", "uint16_t", "int16_t", "uint8_t", "int8_t", "char"}
 var enumTypes = []string{"uint8_t", "int8_t", "uint16_t", "uint32_t", "int32_t", "uint64_t"}
 
+// rareEnumTypes are integer types a definition may give to an enum field although the run time may not support them
+// as enum wire types: such a definition is either reported as an error (by the generator or when the generated
+// dialect initializes) or encoded at the declared width - never silently encoded some other way.
+var rareEnumTypes = []string{"int16_t", "int64_t"}
+
+func drawEnumFieldType(t *rapid.T) string {
+	if rapid.IntRange(0, 9).Draw(t, "rare_enum_type") == 0 {
+		return rapid.SampledFrom(rareEnumTypes).Draw(t, "etype_rare")
+	}
+	return rapid.SampledFrom(enumTypes).Draw(t, "etype")
+}
+
 var nameWords = []string{"alt", "lat", "lon", "vx", "time", "boot", "ms", "target", "system", "param", "seq", "mode", "type", "id",
 	"count", "flags", "yaw", "q", "x", "y", "z", "data", "name", "status", "temp", "gps", "fix", "raw", "int", "cov"}
 
@@ -265,10 +277,10 @@ func drawDialectModel(t *rapid.T, idx int) XDialect {
 				case k < 8:
 					f.Type = "uint8_t_mavlink_version"
 				case k < 10 && len(allEnums) > 0:
-					f.Type = rapid.SampledFrom(enumTypes).Draw(t, "etype")
+					f.Type = drawEnumFieldType(t)
 					f.Enum = rapid.SampledFrom(allEnums).Draw(t, "enumref")
 				case len(allEnums) > 0:
-					f.Type = rapid.SampledFrom(enumTypes).Draw(t, "etype")
+					f.Type = drawEnumFieldType(t)
 					f.Enum = rapid.SampledFrom(allEnums).Draw(t, "enumref")
 					f.ArrayLen = rapid.IntRange(1, 5).Draw(t, "arr")
 				default:
